@@ -38,7 +38,19 @@ DESIGN_REF = "DESIGN.md section 4, C09"
 RULE = ("cases = (simulation, fault site, exception class); sites enumerated from the fault-free trace; non-trivial = a "
         "fault was actually injected (the faulted probe call happened); distinct = distinct (mode, site, class)")
 
-EXC = ["ValueError", "KeyError", "RuntimeError", "ZeroDivisionError", "OSError", "ProbeError"]
+EXC = ["ValueError", "KeyError", "RuntimeError", "ZeroDivisionError", "OSError", "ProbeError", "StopIteration",
+       "ProbeStop"]
+
+
+class ProbeStop(StopIteration):
+    """a model whose unguarded next() hits an exhausted iterator raises (a subclass of) StopIteration - an exception
+    class that iteration protocols swallow"""
+
+
+def _make_exc(kind, msg):
+    if kind == "ProbeStop":
+        return ProbeStop(msg)
+    return probes.make_exc(kind, msg)
 PLAN: dict = {}
 LOG: list = []
 
@@ -67,7 +79,7 @@ def boom(detector, a=0, b=0, tag=""):
         if p["step"] != step or p.get("a", a) != a or p.get("b", b) != b:
             return
     PLAN["_hit"] = PLAN.get("_hit", 0) + 1
-    raise probes.make_exc(p["exc"], p["msg"])
+    raise _make_exc(p["exc"], p["msg"])
 
 
 def _slow_if_requested():
@@ -131,6 +143,19 @@ def enumerate_cases(tier, seed):
                             cases.append({"mode": "obs_seq", "omode": omode, "pipe": "p2", "steps": steps,
                                           "site": {"name": model, "step": step, "a": run["a"], "b": run["b"]}, "exc": exc})
                         first = False
+    # the command-line / YAML entry point pyxel.run(<file>) with an outputs section
+    for ymode in ("exposure", "obs_seq"):
+        first = True
+        for run in ([{"a": 0, "b": 0}] if ymode == "exposure" else _runs("product")):
+            for step in range(2):
+                for g, model in PIPES["p2"]:
+                    for exc in (EXC if (thorough or first) else ["ValueError"]):
+                        site = {"name": model, "step": step}
+                        if ymode == "obs_seq":
+                            site.update(a=run["a"], b=run["b"])
+                        cases.append({"mode": ymode, "entry": "yaml", "omode": "product", "pipe": "p2", "steps": 2,
+                                      "site": site, "exc": exc})
+                    first = False
     # parallel observation
     for sched in ("synchronous", "threads", "controlled"):
         first = True
@@ -204,7 +229,7 @@ def build_observation(omode, pname, steps, with_dask, tmp):
 # ------------------------------------------------------------------------- oracle helpers
 
 def chain_texts(e):
-    """(types in chain, concatenated text of str(), notes) following __cause__/__context__."""
+    """(types in chain, concatenated text of str(), notes) following the explicit __cause__ chain."""
     types, texts = [], []
     seen = set()
     while e is not None and id(e) not in seen:
@@ -213,13 +238,17 @@ def chain_texts(e):
         texts.append(str(e))
         texts.extend(str(n) for n in getattr(e, "__notes__", []) or [])
         texts.extend(str(a) for a in getattr(e, "args", ()) or ())
-        e = e.__cause__ or e.__context__
+        # only the explicit chain (`raise ... from exc`): an implicit __context__ means that ANOTHER error happened while
+        # the failure was being handled and replaced it - the caller then catches that other error, not the model's
+        e = e.__cause__
     return types, "\n".join(texts)
 
 
 def exc_class(name):
     import builtins
 
+    if name == "ProbeStop":
+        return ProbeStop
     return probes.ProbeError if name == "ProbeError" else getattr(builtins, name)
 
 
@@ -233,6 +262,8 @@ def run_case(case):
 
     def bad(code, what, **extra):
         key = {"mode": mode, "code": code}
+        if case.get("entry"):
+            key["entry"] = case["entry"]
         if mode == "obs_seq":
             key["omode"] = case["omode"]
         if mode == "obs_dask":
@@ -253,7 +284,9 @@ def run_case(case):
         det = mk.detector("ccd", 2, 3)
         pipe = build_pipe(case["pipe"])
         try:
-            if mode == "exposure":
+            if case.get("entry") == "yaml":
+                result = pyxel.run(_write_yaml(case, tmp))
+            elif mode == "exposure":
                 result = pyxel.run_mode(mk.exposure([float(i + 1) for i in range(case["steps"])]), det, pipe,
                                         with_inherited_coords=True)
             elif mode == "obs_seq":
@@ -328,9 +361,41 @@ def run_case(case):
                 break
         if idx is not None and len(log) > idx + 1:
             bad("continued", f"{len(log) - idx - 1} model call(s) executed after the failing one: {log[idx + 1:][:4]}")
-    return {"viol": viol, "sig": cfgx.sig([mode, case.get("omode"), case.get("sched"), case.get("order"), site, case["exc"]]),
+    return {"viol": viol, "sig": cfgx.sig([mode, case.get("entry"), case.get("omode"), case.get("sched"), case.get("order"), site, case["exc"]]),
             "nontrivial": True, "n": 1,
             "outcome": {"raised": None if raised is None else type(raised).__name__, "phase": phase, "calls": len(log)}}
+
+
+def _write_yaml(case, tmp):
+    import yaml
+
+    s = int(os.environ.get("VERIF_SEED", "0") or 0) % 5
+    pname = case["pipe"]
+    pipe = {}
+    for g, n in DISABLED[pname]:
+        pipe.setdefault(g, []).append({"name": n, "func": "props.c09_fault_propagation.boom", "enabled": False,
+                                       "arguments": {"a": 0, "b": 0}})
+    for g, n in PIPES[pname]:
+        pipe.setdefault(g, []).append({"name": n, "func": "props.c09_fault_propagation.boom", "enabled": True,
+                                       "arguments": {"a": 0, "b": 0}})
+    readout = {"times": [float(i + 1) for i in range(case["steps"])]}
+    outputs = {"output_folder": os.path.join(tmp, "out"), "save_data_to_file": [{"detector.pixel.array": ["npy"]}]}
+    doc = {"ccd_detector": {
+        "geometry": {"row": 2, "col": 3, "total_thickness": 10.0, "pixel_vert_size": 2.0, "pixel_horz_size": 0.5},
+        "environment": {"temperature": 100.0},
+        "characteristics": {"quantum_efficiency": 0.5, "charge_to_volt_conversion": 1e-3, "pre_amplification": 4.0,
+                            "full_well_capacity": 1000, "adc_bit_resolution": 16, "adc_voltage_range": [0.0, 8.0]}},
+        "pipeline": pipe}
+    if case["mode"] == "exposure":
+        doc["exposure"] = {"readout": readout, "outputs": outputs}
+    else:
+        doc["observation"] = {"mode": "product", "readout": readout, "outputs": outputs, "parameters": [
+            {"key": key_of(pname, "m_ph", "a"), "values": [1 + s, 2 + s]},
+            {"key": key_of(pname, "m_ph", "b"), "values": [5, 6]}]}
+    path = os.path.join(tmp, "config.yaml")
+    with open(path, "w") as f:
+        yaml.safe_dump(doc, f, sort_keys=False)
+    return path
 
 
 def _has_value(text, key, value):
